@@ -31,3 +31,9 @@ claim("C14",
       "Decides only the lock-discipline half of 'free of data races': for every field of the wallet's shared types stored after construction, every store shares a held lock with every other access of that field, for all interleavings (a lockset fact is schedule-independent). Entry locksets are computed, not assumed; a.mu counts only when the locked object is the accessed object.",
       "Trusted: go/ssa, sync.Mutex semantics, composite literals under construction are unshared. NOT decided: linearizability/real-time order, races on pointees reached through method calls on loaded pointers (SecretKey.Zero, ManagedAddress fields), races inside mass-core/leveldb.",
       "DESIGN.md §4 C14")
+
+claim("C13",
+      "blocking-under-lock analysis with progress sets + channel close/send discipline + lock-order graph + queue lockset",
+      "Static necessary conditions of 'every request returns, stopping terminates, no panic': every blocking operation reached while a keeper lock is held (computed locksets, may-block call summaries) is unblocked only by goroutines that never acquire a conflicting lock; every close of a field-held channel is once-guarded and every send on a closable channel is under the closer's mutex behind the flag test; lock order acyclic; the plotter queue heap is accessed under its mutex by all concurrent code (v1 and v2 keepers). Holds for all interleavings and any number of queued requests because locksets and channel identities are schedule-independent. Four sites (send on the bounded request channel under stateLock) are a recorded known finding.",
+      "Trusted: go/ssa, mass-core BaseService CAS serialisation (re-verified on its SSA), channel identity by field. NOT decided: general deadlock freedom/liveness, panics from nil items, lost stop request when StopWS races the start of a plot.",
+      "DESIGN.md §4 C13")
